@@ -36,8 +36,10 @@ def strip_carets(cmd: bytes) -> bytes:
         elif character == ord("^") and not in_string:
             # Skip and treat the next character literally
             i += 1
-            if cmd[i] == ord("\r"):
+            if cmd[i : i + 2] == b"\r\n":
                 i += 2  # skip \r\n
+                if i >= len(cmd):
+                    break  # the line continuation ends the command
         # Add the character (or next character if ^)
         out.append(cmd[i])
         i += 1
